@@ -19,6 +19,7 @@ import (
 	"encoding/json"
 	"fmt"
 	"sort"
+	"strconv"
 	"strings"
 	"sync"
 	"testing"
@@ -33,6 +34,7 @@ import (
 	"pgregory.net/rapid"
 
 	"verif/harness/internal/ev"
+	"verif/harness/internal/ref"
 )
 
 const c49RuleText = "cases = (module, 1-2 rules of 1-3 documented actions with doc-valid parameters, cond default_t()/req_path_prefix_in, Last) x request (host, path of 0-4 segments incl. %XX, query of 0-6 elements: plain/percent-/plus-encoded keys, keys without '=', empty values, repeated keys, ';', empty elements). non-trivial: a rule matched AND (rewrite: the query has an encoded/'='-less/repeated key touched by a query action, or a host/path action applied; header: an action hit an existing header or used a variable; redirect: redirect issued). distinct by the JSON of the whole case"
@@ -181,7 +183,7 @@ func hasClass(cs []string, c string) bool {
 
 // c49Check evaluates one case. It returns false when the case hit a known finding
 // (excluded by construction).
-func c49Check(tb ev.TB, rec *ev.Rec, c *c49Case) {
+func c49Check(tb ev.TB, rec *ev.Rec, c *c49Case, e2e *c49Rig) {
 	ms, err := c49Setup()
 	if err != nil {
 		tb.Fatalf("harness: module setup: %v", err)
@@ -189,6 +191,12 @@ func c49Check(tb ev.TB, rec *ev.Rec, c *c49Case) {
 	fpb, _ := json.Marshal(c)
 	fp := string(fpb)
 	classes := []string{"mod:" + c.Mod}
+	if e2e != nil {
+		fp = "e2e:" + fp
+		classes = append(classes, "stage:end-to-end")
+	} else {
+		classes = append(classes, "stage:module")
+	}
 	for _, r := range c.Rules {
 		for _, a := range r.Actions {
 			classes = append(classes, "act:"+a.Cmd)
@@ -198,7 +206,11 @@ func c49Check(tb ev.TB, rec *ev.Rec, c *c49Case) {
 	defer func() { rec.Case(fp, nt, uniq(classes)...) }()
 
 	// (i) acceptance
-	if lerr, culprits := c49Load(ms, c); lerr != nil {
+	loadFn := func() (error, []string) { return c49Load(ms, c) }
+	if e2e != nil {
+		loadFn = func() (error, []string) { return e2e.load(c) }
+	}
+	if lerr, culprits := loadFn(); lerr != nil {
 		if _, ok := lerr.(harnessErr); ok || strings.HasPrefix(lerr.Error(), "harness:") {
 			tb.Fatalf("harness: %v", lerr)
 		}
@@ -235,19 +247,33 @@ func c49Check(tb ev.TB, rec *ev.Rec, c *c49Case) {
 			rec.Excluded("cond-open")
 			return
 		}
-		var ret int
-		if p := ev.Try(func() { ret, _ = ms.rewrite.filterRequest(bfe_module.HandleAfterLocation, req) }); p != nil {
-			rec.Fail(tb, "panic/rewrite", c, "mod_rewrite panicked: %v", p)
-			return
-		}
-		if ret != bfe_module.BfeHandlerGoOn {
-			rec.Fail(tb, "rewrite/verdict", c, "rewrite handler returned %d, want GoOn", ret)
-			return
-		}
-		msg, raw, err := toBackend(req)
-		if err != nil {
-			rec.Fail(tb, "rewrite/backend-write", c, "request not writable to the backend after rewrite: %v (%q)", err, raw)
-			return
+		var msg *ref.Message
+		if e2e != nil {
+			x := e2e.exchange(c)
+			if x.timeout {
+				rec.Excluded("e2e-inconclusive")
+				return
+			}
+			if x.msg == nil {
+				rec.Fail(tb, "rewrite/not-forwarded", c, "request was not forwarded to the backend (client got status %d)", x.status)
+				return
+			}
+			msg = x.msg
+		} else {
+			var ret int
+			if p := ev.Try(func() { ret, _ = ms.rewrite.filterRequest(bfe_module.HandleAfterLocation, req) }); p != nil {
+				rec.Fail(tb, "panic/rewrite", c, "mod_rewrite panicked: %v", p)
+				return
+			}
+			if ret != bfe_module.BfeHandlerGoOn {
+				rec.Fail(tb, "rewrite/verdict", c, "rewrite handler returned %d, want GoOn", ret)
+				return
+			}
+			var raw []byte
+			if msg, raw, err = toBackend(req); err != nil {
+				rec.Fail(tb, "rewrite/backend-write", c, "request not writable to the backend after rewrite: %v (%q)", err, raw)
+				return
+			}
 		}
 		obsHost := strings.Join(msg.Get("Host"), "|")
 		obsRawPath, obsRawQuery, _ := splitTarget(msg.Target)
@@ -364,38 +390,66 @@ func c49Check(tb ev.TB, rec *ev.Rec, c *c49Case) {
 	case "header":
 		path, _ := pctDecode(rawPath, false)
 		vars := c49VarsFor(&c.Req)
-		res, err := attachResponse(req, 200, c.Resp)
-		if err != nil {
-			rec.Excluded("bfe-parser-rejects-response")
-			return
+		var msg *ref.Message
+		var obsRsp map[string][]string
+		if e2e != nil {
+			x := e2e.exchange(c)
+			if x.timeout {
+				rec.Excluded("e2e-inconclusive")
+				return
+			}
+			if x.msg == nil {
+				rec.Fail(tb, "header/not-forwarded", c, "request was not forwarded to the backend (client got status %d)", x.status)
+				return
+			}
+			msg, obsRsp = x.msg, x.rsp
+			// what the real connection looks like: loopback client, no mod_logid, no VIP
+			vars = map[string]string{"bfe_client_ip": "127.0.0.1", "bfe_cip": "127.0.0.1", "bfe_client_port": strconv.Itoa(x.localPort),
+				"bfe_request_host": c.Req.Host, "bfe_cluster": "cluster_x"}
+			for _, r := range c.Rules {
+				for _, a := range r.Actions {
+					if len(a.Params) > 1 && strings.HasPrefix(a.Params[1], "%") {
+						if _, ok := vars[a.Params[1][1:]]; !ok {
+							rec.Excluded("e2e-variable-not-modelled")
+							return
+						}
+					}
+				}
+			}
+		} else {
+			res, err := attachResponse(req, 200, c.Resp)
+			if err != nil {
+				rec.Excluded("bfe-parser-rejects-response")
+				return
+			}
+			var ret, ret2 int
+			if p := ev.Try(func() {
+				ret, _ = ms.header.filterRequest(bfe_module.HandleAfterLocation, req)
+				ret2 = ms.header.filterResponse(bfe_module.HandleReadResponse, req, res)
+			}); p != nil {
+				rec.Fail(tb, "panic/header", c, "mod_header panicked: %v", p)
+				return
+			}
+			if ret != bfe_module.BfeHandlerGoOn || ret2 != bfe_module.BfeHandlerGoOn {
+				rec.Fail(tb, "header/verdict", c, "header handlers returned %d/%d, want GoOn", ret, ret2)
+				return
+			}
+			var raw []byte
+			if msg, raw, err = toBackend(req); err != nil {
+				rec.Fail(tb, "header/backend-write", c, "request not writable to the backend after header actions: %v (%q)", err, raw)
+				return
+			}
+			obsRsp = lowerMulti(res.Header)
 		}
 		reqM := newHdrModel(c.Req.Headers, vars)
 		rspM := newHdrModel(c.Resp, vars)
 		nReq := runHeader(reqM, c.Rules, "REQ_", path)
 		nRsp := runHeader(rspM, c.Rules, "RSP_", path)
-		var ret, ret2 int
-		if p := ev.Try(func() {
-			ret, _ = ms.header.filterRequest(bfe_module.HandleAfterLocation, req)
-			ret2 = ms.header.filterResponse(bfe_module.HandleReadResponse, req, res)
-		}); p != nil {
-			rec.Fail(tb, "panic/header", c, "mod_header panicked: %v", p)
-			return
-		}
-		if ret != bfe_module.BfeHandlerGoOn || ret2 != bfe_module.BfeHandlerGoOn {
-			rec.Fail(tb, "header/verdict", c, "header handlers returned %d/%d, want GoOn", ret, ret2)
-			return
-		}
-		msg, raw, err := toBackend(req)
-		if err != nil {
-			rec.Fail(tb, "header/backend-write", c, "request not writable to the backend after header actions: %v (%q)", err, raw)
-			return
-		}
 		obsReq := map[string][]string{}
 		for _, f := range msg.Fields {
 			k := strings.ToLower(f.Name)
 			obsReq[k] = append(obsReq[k], f.Value)
 		}
-		obsRsp := lowerMulti(res.Header)
 		if nReq+nRsp > 0 {
 			classes = append(classes, "matched")
 		} else {
@@ -418,6 +472,18 @@ func c49Check(tb ev.TB, rec *ev.Rec, c *c49Case) {
 				}
 			}
 		}
+		known := map[string]bool{}
+		for _, h := range c.Req.Headers {
+			known[strings.ToLower(h.K)] = true
+		}
+		for _, h := range c.Resp {
+			known[strings.ToLower(h.K)] = true
+		}
+		for _, r := range c.Rules {
+			for _, a := range r.Actions {
+				known[strings.ToLower(a.Params[0])] = true
+			}
+		}
 		cmp := func(phase string, m *hdrModel, obs map[string][]string) bool {
 			if m.open {
 				classes = append(classes, "h:last-open")
@@ -428,7 +494,9 @@ func c49Check(tb ev.TB, rec *ev.Rec, c *c49Case) {
 				names[k] = true
 			}
 			for k := range obs {
-				names[k] = true
+				if e2e == nil || known[k] {
+					names[k] = true // end to end the server adds headers of its own (Date, Connection, ...)
+				}
 			}
 			var ns []string
 			for k := range names {
@@ -465,6 +533,42 @@ func c49Check(tb ev.TB, rec *ev.Rec, c *c49Case) {
 
 	case "redirect":
 		redirect, status, loc, open, cmd := redirectModel(c.Rules, c.Req.Host, c.Req.Target)
+		if e2e != nil {
+			x := e2e.exchange(c)
+			if x.timeout {
+				rec.Excluded("e2e-inconclusive")
+				return
+			}
+			if !redirect {
+				classes = append(classes, "not-matched")
+				if x.msg == nil || x.status != 200 {
+					rec.Fail(tb, "redirect/unexpected", c, "no rule matches but the request was not forwarded (status %d)", x.status)
+				}
+				return
+			}
+			classes = append(classes, "matched")
+			if x.msg != nil {
+				rec.Fail(tb, "effect/"+cmd, c, "matching redirect rule but the request was forwarded to the backend")
+				return
+			}
+			if x.status != status {
+				rec.Fail(tb, "redirect/status", c, "status %d, configured %d", x.status, status)
+				return
+			}
+			if open {
+				classes = append(classes, "r:open")
+				return
+			}
+			nt = true
+			if got := strings.Join(x.rsp["location"], "|"); got != loc {
+				key := c49RedirectKey(c, cmd, rawQuery)
+				if rec.Fail(tb, key, c, "%s: Location %q, documented %q", cmd, got, loc) {
+					return
+				}
+				rec.Excluded("known-finding")
+			}
+			return
+		}
 		var ret int
 		if p := ev.Try(func() { ret, _ = ms.redirect.filterRequest(bfe_module.HandleFoundProduct, req) }); p != nil {
 			rec.Fail(tb, "panic/redirect", c, "mod_redirect panicked: %v", p)
@@ -499,28 +603,33 @@ func c49Check(tb ev.TB, rec *ev.Rec, c *c49Case) {
 		}
 		nt = true
 		if got := rw.h.Get("Location"); got != loc {
-			key := "effect/" + cmd
-			if cmd == "URL_FROM_QUERY" {
-				for _, r := range c.Rules {
-					if r.Actions[0].Cmd != cmd {
-						continue
-					}
-					for _, p := range splitQuery(rawQuery) {
-						if p.Key == r.Actions[0].Params[0] {
-							if strings.Contains(p.Raw, ";") {
-								key = "effect/URL_FROM_QUERY/semicolon-element"
-							}
-							break
-						}
-					}
-				}
-			}
+			key := c49RedirectKey(c, cmd, rawQuery)
 			if rec.Fail(tb, key, c, "%s: Location %q, documented %q", cmd, got, loc) {
 				return
 			}
 			rec.Excluded("known-finding")
 		}
 	}
+}
+
+func c49RedirectKey(c *c49Case, cmd, rawQuery string) string {
+	key := "effect/" + cmd
+	if cmd == "URL_FROM_QUERY" {
+		for _, r := range c.Rules {
+			if r.Actions[0].Cmd != cmd {
+				continue
+			}
+			for _, p := range splitQuery(rawQuery) {
+				if p.Key == r.Actions[0].Params[0] {
+					if strings.Contains(p.Raw, ";") {
+						key = "effect/URL_FROM_QUERY/semicolon-element"
+					}
+					break
+				}
+			}
+		}
+	}
+	return key
 }
 
 func c49StillExpected(m *rwModel, raw string) bool {
@@ -869,12 +978,12 @@ func c49GenCase(rt *rapid.T) *c49Case {
 
 // c49Sweep: every documented action alone, with the parameters of the docs' own examples,
 // on a fixed request.
-func c49Sweep(t *testing.T, rec *ev.Rec) {
+func c49Sweep(t *testing.T, rec *ev.Rec, rig *c49Rig) {
 	one := func(mod string, a c49Action, target string, hs, rs []hdr) {
 		c := &c49Case{Mod: mod, Rules: []c49Rule{{Actions: []c49Action{a}, Last: true, Status: 301}},
 			Req: reqSpec{Method: "GET", Target: target, Host: "www.example.org", Vip: "10.9.8.7", Headers: hs}, Resp: rs}
 		rec.Sample(c)
-		c49Check(t, rec, c)
+		c49Check(t, rec, c, rig)
 	}
 	for _, a := range []c49Action{
 		{"HOST_SET", []string{"backend.example.org"}}, {"HOST_SET_FROM_PATH_PREFIX", []string{}},
@@ -907,11 +1016,24 @@ func TestC49(t *testing.T) {
 	if _, err := c49Setup(); err != nil {
 		t.Fatalf("harness: %v", err)
 	}
-	c49Sweep(t, rec)
+	c49Sweep(t, rec, nil)
+	// end-to-end stage: one in-process BFE with the three modules and a harness backend;
+	// the sweep and every 16th generated case (8th in the thorough tier) also go through it
+	rig, err := c49StartRig()
+	if err != nil {
+		t.Fatalf("harness: rig: %v", err)
+	}
+	c49Sweep(t, rec, rig)
+	every := ev.N(16, 8)
+	n := 0
 	rapid.Check(t, func(rt *rapid.T) {
 		c := c49GenCase(rt)
 		rec.Sample(c)
-		c49Check(rt, rec, c)
+		c49Check(rt, rec, c, nil)
+		n++
+		if n%every == 0 {
+			c49Check(rt, rec, c, rig)
+		}
 	})
 }
 
